@@ -11,13 +11,13 @@ def queries(tier, seed):
     def add(alg, s, d, dims, pads, t, offs=None, diff=None):
         if alg == 'equal' and diff is None:
             w_, h_ = dims
-            cands = [(-1, -1), (0, 0), (w_ - 1, h_ - 1), (w_ // 2, h_ // 2)] if (t == 'quick' or tier == 'quick') else [(-1, -1)] + [(x, y) for y in range(h_) for x in range(w_)]
+            cands = [(-1, -1), (0, 0), (w_ - 1, h_ - 1), (w_ // 2, h_ // 2)] if (t == 'quick' or tier == 'quick' or dims != (3, 2)) else [(-1, -1)] + [(x, y) for y in range(h_) for x in range(w_)]
             for dd in dict.fromkeys(cands): add(alg, s, d, dims, pads, t, offs, dd)
             return
         if diff is None: diff = (-1, -1)
         if offs is None: offs = [(1, 1), (0, 0), (2, 0), (2, 1)][(dims[0] + pads[0] + len(alg)) % 4] if tier == 'quick' or t == 'quick' else None
         if offs is None:
-            for o in [(1, 1), (0, 0), (2, 0), (2, 1)]: add(alg, s, d, dims, pads, t, o, diff)
+            for o in ([(1, 1), (0, 0), (2, 1)] if dims == (3, 2) else [(2, 1)]): add(alg, s, d, dims, pads, t, o, diff)
             return
         (sk, sx), (dk, dx) = s, d
         w, h = dims
@@ -25,8 +25,8 @@ def queries(tier, seed):
         bitty = any(k in (sk + dk) for k in ('bgr232', 'gray1', 'gray2', 'rgb222'))
         qs.append(Q(name, 'C04/alg.cpp', 'h_alg', defs=dict(SRC=sk, SXF=sx, DST=dk, DXF=dx, ALG=ALG[alg]), params=[w, h, pads[0], pads[1], offs[0], offs[1]] + list(diff),
                     unwind=3 * max(w, h) + 8, rt_unwind=(max(w, h) + 2) * 4 + 6, tier=t, timeout=300))
-    dt = [(3, 2), (1, 1), (0, 2), (2, 0), (2, 3), (4, 1), (1, 4), (4, 3)]
-    pt = [(1, 2), (0, 0), (3, 1), (0, 3)]
+    dt = [(3, 2), (1, 1), (0, 2), (2, 3), (4, 1), (4, 3)]
+    pt = [(1, 2), (0, 0), (3, 1)]
     Q_ = 'quick'; T_ = 'thorough'
     for si, s in enumerate(RGB):
         for di, d in enumerate(RGB):
